@@ -357,6 +357,21 @@ func (r *Run) findPartner(ch *Chan, wantSend bool, except *Thread) (*Thread, int
 		if th == except || th.state != tBlocked || th.completed >= 0 {
 			continue
 		}
+		// a goroutine parked in select is woken by the first case that fires and is dequeued from all
+		// its channels at that moment: if one of its cases is already ready on its own (closed channel,
+		// buffered data, buffer space) it is committed to that and no longer a rendezvous partner
+		committed := false
+		for _, c := range th.cases {
+			if c.ch == nil {
+				continue
+			}
+			if c.send && (c.ch.closed || len(c.ch.buf) < c.ch.cap) || !c.send && (c.ch.closed || len(c.ch.buf) > 0) {
+				committed = true
+			}
+		}
+		if committed {
+			continue
+		}
 		for i, c := range th.cases {
 			if c.ch == ch && c.send == wantSend {
 				return th, i
